@@ -123,6 +123,55 @@ Theorem src_LocalTask_ExecuteRange_loop :
 Proof. exact execute_range_src. Qed.
 Print Assumptions src_LocalTask_ExecuteRange_loop.
 
+(* parallel_foreach (iterator overload, ITERATOR_T = pointer to unsigned char): count is a size_t holding distance(begin,end)
+   unconverted, parallel_for is instantiated at unsigned long with a size_t index, and index i is handed the element
+   v[i] = (&*begin)[i]: for EVERY distance below 2^64 the elements visited are exactly Model.foreach_addrs *)
+Theorem src_foreach_is_foreach_addrs : forall base d, 0 <= d < 18446744073709551616 ->
+  known (f_body src_foreach_iter) = true /\ known (f_body src_foreach_iter_lambda0) = true /\
+  fv_decls (foreach_src base d) = [("count", "const size_t"); ("v", "unsigned char *")] /\
+  fv_calls (foreach_src base d) = [("parallel_for", "void (unsigned long, LAMBDA &&)")] /\
+  fv_args (foreach_src base d) = [("parallel_for", [Var "count"; Var "LAMBDA#0"])] /\
+  fv_lam_params (foreach_src base d) = [("i", "size_t")] /\
+  fv_count (foreach_src base d) = d /\
+  foreach_src_addrs base d = foreach_addrs base 1 d.
+Proof. exact foreach_src_sem. Qed.
+Print Assumptions src_foreach_is_foreach_addrs.
+
+Theorem src_foreach_container_forwards :
+  known (f_body src_foreach_container) = true /\
+  exists sig a b fw, f_body src_foreach_container = [Exp (Call "parallel_foreach" sig [Call "begin" a [Var "c"]; Call "end" b [Var "c"]; fw])].
+Proof. exact foreach_container_src. Qed.
+Print Assumptions src_foreach_container_forwards.
+
+(* a count narrowed to int (the variant this obligation excludes): 2^31+5 elements -> negative, nothing visited;
+   2^32+3 -> 3 visited.  These distances are what the check replays on the real code when the obligation breaks. *)
+Theorem foreach_int_count_refuted :
+  wrap I32 (2147483648 + 5) < 0 /\ wrap I32 (4294967296 + 3) = 3 /\
+  foreach_addrs 0 1 (wrap I32 (2147483648 + 5)) = [].
+Proof. exact ProofsSrc.foreach_int_count_refuted. Qed.
+Print Assumptions foreach_int_count_refuted.
+
+(* declared C types of every count-like local, loop index and lambda index on the way to the backends *)
+Theorem src_count_types :
+  hd ("", "") (f_params src_blocks_u32_1024) = ("nTasks", "unsigned int") /\
+  decl_types (f_body src_blocks_u32_1024) = [("numBlocks", "unsigned int")] /\
+  top_call_sigs (f_body src_blocks_u32_1024) = [("parallel_for", "void (unsigned int, LAMBDA &&)")] /\
+  f_params src_blocks_u32_1024_lambda0 = [("blockID", "unsigned int")] /\
+  decl_types (f_body src_blocks_u32_1024_lambda0) = [("begin", "unsigned int"); ("end", "unsigned int")] /\
+  hd ("", "") (f_params src_blocks_i32_4) = ("nTasks", "int") /\
+  decl_types (f_body src_blocks_i32_4) = [("numBlocks", "int")] /\
+  top_call_sigs (f_body src_blocks_i32_4) = [("parallel_for", "void (int, LAMBDA &&)")] /\
+  f_params src_blocks_i32_4_lambda0 = [("blockID", "int")] /\
+  decl_types (f_body src_blocks_i32_4_lambda0) = [("begin", "int"); ("end", "int")] /\
+  for_decl_types src_impl_omp_int = [("taskIndex", "int")] /\
+  for_decl_types src_impl_omp_size_t = [("taskIndex", "unsigned long")] /\
+  for_decl_types src_impl_debug_int = [("taskIndex", "int")] /\
+  for_decl_types src_impl_debug_size_t = [("taskIndex", "unsigned long")] /\
+  hd ("", "") (f_params src_parallel_for_internal) = ("nTasks", "int") /\
+  for_decl_types src_LocalTask_ExecuteRange = [("i", "uint32_t")].
+Proof. exact count_types_src. Qed.
+Print Assumptions src_count_types.
+
 (* ================================================================== no uint32_t wrap *)
 (* every range a reachable state holds (queued, held, still to be cut) lies inside [0, n] ... *)
 Theorem enki_ranges_bounded : forall p t0 s, wf_params p -> reachable p t0 s -> bounded p s.
